@@ -51,7 +51,7 @@ REQUIRED = {"mp.sessions": 200, "mp.writer-sessions": 90, "mp.reader-between-wri
             # workload classes added after the gap review
             "mp.readonly-handle-sessions": 50, "mp.sessions-through-a-link-to-the-file": 45,
             "mp.writer-sessions-with-delayed-close": 40, "mp.reader-sessions-with-delayed-close": 40,
-            "fail.cases-ended-by-something-that-is-not-an-Exception": 23, "fail.cases-on-a-read-only-handle": 4,
+            "fail.cases-ended-by-something-that-is-not-an-Exception": 23, "fail.cases-on-a-read-only-handle": 4, "fail.first-put-rejected-then-same-handle": 4, "fail.partial-write-by-the-os": 3,
             "locktimeout.read-only-handle-parties": 1, "longlived.sessions-of-a-long-lived-read-only-handle": 12,
             "recreate.schedules": 4, "recreate.reading-session-inside": 1,
             "recreate.reading-session-inside-on-a-read-only-handle": 1, "recreate.writing-session-inside": 1}
@@ -1040,10 +1040,153 @@ def fail_cases():
     return cases
 
 
+def run_fail_first_put(ctx):
+    """A session whose FIRST (only) put is rejected by the backend because the encoder handed over text instead of bytes;
+    nothing else touches the file before the same long-lived handle runs its next sessions: the rejected key is not
+    listed, is unknown to get, and can be stored properly afterwards; a fresh handle agrees."""
+    from molli.storage import Collection, UkvCollectionBackend
+    from vmon.models.kvmap import scan, ScanError
+
+    for bufsize in (-1, 0, 4096, 10**6):
+        case = ("fail", "first-put-not-bytes", bufsize)
+        if not ctx.want(case):
+            continue
+        path = ctx.tmp / f"firstput-{bufsize}.ukv"
+        armed = [False]
+        col = Collection(path, UkvCollectionBackend, value_encoder=lambda v: v.decode("latin-1") if armed[0] else v,
+                         readonly=False, overwrite=True, bufsize=bufsize)
+        with col.writing():
+            col["old0"] = b"old-value-0"
+            col["old1"] = b"old-value-1"
+        raised = None
+        armed[0] = True
+        try:
+            with col.writing():
+                col["bad"] = b"text, not bytes, reaches the file layer"
+        except BaseException as e:  # noqa
+            raised = e
+        armed[0] = False
+        ctx.count("fail.cases")
+        ctx.count("fail.first-put-rejected-then-same-handle")
+        ctx.case(case, dkey=case, nontrivial=True, sample={"step": "first-put-not-bytes", "bufsize": bufsize, "raised": repr(raised)[:80]})
+        tag = "first-put-not-bytes"
+        if raised is None:
+            ctx.violation(f"fail:{tag}:accepted-silently", case=case)
+            continue
+        try:
+            with col.reading(timeout=10):
+                ks = set(col.keys())
+                if ks != {"old0", "old1"}:
+                    ctx.violation(f"fail:{tag}:same-handle-lists-a-record-that-was-never-written", case=case, listed=sorted(ks))
+                    continue
+            with col.writing(timeout=10):
+                col["bad"] = b"now bytes"
+            fresh = Collection(path, UkvCollectionBackend, readonly=True)
+            with fresh.reading(timeout=10):
+                got = {k: fresh[k] for k in fresh.keys()}
+            if got != {"old0": b"old-value-0", "old1": b"old-value-1", "bad": b"now bytes"}:
+                ctx.violation(f"fail:{tag}:records-differ-after-the-key-was-stored-properly", case=case, listed=sorted(got))
+            scan(path.read_bytes())
+        except ScanError as e:
+            ctx.violation(f"fail:{tag}:file-not-a-clean-record-sequence", case=case, err=str(e))
+        except Exception as e:  # noqa
+            ctx.violation(f"fail:{tag}:same-handle-next-session-raises:{type(e).__name__}", case=case, err=repr(e)[:200])
+
+
+PARTIAL_WRITER = r"""
+import sys, json, resource, signal
+sys.path[:0] = %(syspath)r
+from molli.storage import Collection, UkvCollectionBackend
+path = %(path)r
+c = Collection(path, UkvCollectionBackend, readonly=False, bufsize=%(bufsize)r)
+import os
+limit = os.path.getsize(path) + %(room)r
+signal.signal(signal.SIGXFSZ, signal.SIG_IGN)          # the write then fails with EFBIG after a partial write
+resource.setrlimit(resource.RLIMIT_FSIZE, (limit, limit))
+err = None
+try:
+    with c.writing(timeout=20):
+        c["big"] = bytes(%(size)r)                     # zero-filled: what is left of it can look like record headers
+except BaseException as e:
+    err = type(e).__name__
+print(json.dumps({"raised": err}))
+"""
+
+
+def run_fail_partial_write(ctx):
+    """The operating system accepts only part of a record (file-size limit, full disk): the session fails, the file ends
+    in a torn record.  Later sessions of OTHER processes append short records; every reader then sees exactly the records
+    of completed sessions - nothing made of the left-over bytes."""
+    from molli.storage import Collection, UkvCollectionBackend
+    from vmon.models.kvmap import scan, ScanError
+
+    for bufsize, size, room in ((0, 20000, 9000), (10**6, 70000, 30000), (0, 9000, 40), (4096, 20000, 5)):
+        case = ("fail", "partial-write", bufsize, size, room)
+        if not ctx.want(case):
+            continue
+        path = ctx.tmp / f"partial-{bufsize}-{size}-{room}.ukv"
+        c0 = Collection(path, UkvCollectionBackend, readonly=False, overwrite=True, bufsize=0)
+        want = {f"a{i}": f"value-{i}".encode() * 3 for i in range(3)}
+        with c0.writing():
+            for k, v in want.items():
+                c0[k] = v
+        par = {"syspath": [p for p in sys.path if p], "path": str(path), "bufsize": bufsize, "size": size, "room": room}
+        try:
+            p = subprocess.run([sys.executable, "-c", PARTIAL_WRITER % par], capture_output=True, text=True, timeout=120)
+            out = json.loads(p.stdout.strip().splitlines()[-1])
+        except Exception as e:  # noqa
+            ctx.inconclusive.append(f"partial-write writer did not report: {e!r}"[:200])
+            continue
+        ctx.count("fail.cases")
+        ctx.count("fail.partial-write-by-the-os")
+        torn = path.stat().st_size
+        ctx.case(case, dkey=case, nontrivial=True, sample={"step": "partial-write", "bufsize": bufsize, "value": size,
+                                                           "room_left": room, "writer_raised": out["raised"]})
+        if out["raised"] is None:
+            ctx.inconclusive.append("partial-write: the size limit did not make the writer fail")
+            continue
+        tag = "partial-write"
+        # a fresh process appends a SHORT record, then readers (long-lived handle c0 and a fresh one) look
+        code = PROBE % {"syspath": [p for p in sys.path if p], "path": str(path), "newkey": "after"}
+        try:
+            pr = subprocess.run([sys.executable, "-c", code], capture_output=True, text=True, timeout=60)
+            seen = json.loads(pr.stdout.strip().splitlines()[-1])
+        except Exception as e:  # noqa
+            ctx.violation(f"fail:{tag}:fresh-process-session-failed", case=case, err=repr(e)[:200])
+            continue
+        if seen.get("lock") != "ok":
+            ctx.violation(f"fail:{tag}:lock-not-released-after-failed-session", case=case)
+            continue
+        expect = dict(want, after=b"from-fresh-process")
+        views = {"fresh-process": {k: bytes.fromhex(v) for k, v in seen["records"].items()}}
+        try:
+            with c0.reading(timeout=10):
+                views["long-lived-handle"] = {k: c0[k] for k in c0.keys()}
+            fh = Collection(path, UkvCollectionBackend, readonly=True)
+            with fh.reading(timeout=10):
+                views["fresh-handle"] = {k: fh[k] for k in fh.keys()}
+        except Exception as e:  # noqa
+            ctx.violation(f"fail:{tag}:reader-raises:{type(e).__name__}", case=case, err=repr(e)[:200])
+            continue
+        for who, got in views.items():
+            if got != expect:
+                ctx.violation(f"fail:{tag}:{who}-sees-other-than-the-completed-records", case=case,
+                              extra=[k[:12] for k in sorted(set(got) - set(expect))][:4], missing=sorted(set(expect) - set(got))[:4],
+                              torn_file_size=torn)
+        try:
+            scan(path.read_bytes())
+        except ScanError as e:
+            ctx.violation(f"fail:{tag}:file-not-a-clean-record-sequence", case=case, err=str(e))
+
+
 def run_fail(spec, ctx):
     from molli.storage import Collection, UkvCollectionBackend
     from vmon.models.kvmap import scan, ScanError
 
+    if spec["chunk"] == 0:
+        run_fail_first_put(ctx)
+    if spec["chunk"] == 1:
+        run_fail_partial_write(ctx)
     allc = fail_cases()
     for idx, (step, bufsize, exc, how) in enumerate(allc):
         if idx % spec["of"] != spec["chunk"]:
